@@ -25,6 +25,7 @@ FLOATS = [0.0, -0.0, 1.0, 0.1, -2.5, 1e22, 5e-324, 1.7976931348623157e308, float
           3.141592653589793, 2.0 ** 53, 1 / 3]
 INTS = [0, 1, -1, 7, 255, -128, 2 ** 31, 2 ** 62, -2 ** 63, 2 ** 63 - 1, 2 ** 70, -2 ** 100, 10 ** 18]
 BITGENS = ["PCG64", "MT19937", "Philox", "SFC64"]
+TWIN_CLASSES = ["twin.NodeA", "twin.NodeB"]         # harness.c01_classes_twin: same names, other module
 ATTRS_CLASSES = ["NodeAttrs", "NodeSlots"]          # attrs-decorated classes of harness.c01_classes (fixed fields)
 ATTRS_FIELDS = ["a", "b", "x", "data"]
 
@@ -201,6 +202,8 @@ def gen_value(r, depth, in_cont, width, allow_obj=True, torch_ok=True):
 
 def gen_obj(r, depth, width, allow_obj_in_cont=True, torch_ok=True, names=None):
     cls = r.choice(["NodeA", "NodeB", "NodeC"])
+    if r.random() < 0.15:
+        cls = r.choice(TWIN_CLASSES)        # a class of the same name from a second module
     if names is None and r.random() < 0.12:
         # attrs-decorated class: the serializer reads the declared fields (fields left out keep their default None)
         cls = r.choice(ATTRS_CLASSES)
@@ -290,6 +293,14 @@ def special_pool():
                               ("c", ["list", [["obj", "NodeB", [["a", i(1)], ["b", ["arr", "float32", [], 9, "C"]]]], s("z")]]),
                               ("x", ["dict", [["o", ["obj", "NodeC", [["a", ["set", [i(4), i(5)]]]]]]]]),
                               ("y", ["tuple", [["obj", "NodeA", [["a", ["none"]]]]]]))))
+    # two classes of the same name from two modules, each as root, attribute, list / set-free tuple item and
+    # dict value of the other: the loaded class must be the one of the recorded module
+    for n, (c1, c2) in enumerate([("NodeA", "twin.NodeA"), ("twin.NodeA", "NodeA"), ("twin.NodeB", "NodeB")]):
+        P.append(("same-name-classes-%d" % n,
+                  root(("a", ["obj", c2, [["x", i(1)]]]), ("b", ["obj", c1, [["x", i(2)], ["o", ["obj", c2, [["y", s("t")]]]]]]),
+                       ("l", ["list", [["obj", c2, [["x", i(3)]]], ["obj", c1, [["x", i(4)]]], s("z")]]),
+                       ("t", ["tuple", [["obj", c1, [["x", i(5)]]], ["obj", c2, [["x", i(6)]]]]]),
+                       ("d", ["dict", [["k", ["obj", c2, [["x", i(7)]]]], ["m", ["obj", c1, [["x", i(8)]]]]]]), cls=c1)))
     P.append(("digit-key-dicts", root(("d", ["dict", [["0", s("a")], ["1", i(2)]]]), ("e", ["dict", [["0", ["arr", "float32", [2], 4, "C"]]]]),
                                       ("f", ["dict", [["2", ["none"]]]]), ("g", ["dict", [["007", i(1)], ["10", ["list", [i(1), s("q")]]]]]),
                                       ("h", ["dict", [["0", i(1)], ["1", i(2)], ["2", i(3)]]]), ("k", ["dict", [["1", ["path", "p/q"]], ["0", f(0.5)]]]),
